@@ -261,6 +261,9 @@ func WorkerMain(t *testing.T) {
 		if dump != "" {
 			SetEventCap(2000000)
 		}
+		if os.Getenv("VERIF_TRACE_RUNS") != "" { // development aid
+			fmt.Fprintf(os.Stderr, "run %d starts at %.1fs\n", idx, time.Since(started).Seconds())
+		}
 		// development aid: full event logs per run, for diffing two processes
 		o := Execute(t, h, rs, idx, tier, tape, dump != "", isKnown)
 		progress.Add(1)
